@@ -219,7 +219,7 @@ impl Prop for C19 {
     }
     fn runs(&self, tier: Tier) -> u64 {
         match tier {
-            Tier::Quick => 8000,
+            Tier::Quick => 60_000,
             Tier::Thorough => 250_000,
         }
     }
